@@ -30,6 +30,10 @@ CLAIMS = {
          "Key ids of every saved output come from next_child (directly, through the context, or the guarded coinbase candidate / chain rewind data); next_child returns only after save_child_index+commit Ok with the pre-increment index; only next_child and scan move the index, scan only forwards to max+1; no caller swallows a failed bump. Uniqueness over histories as such is not decided."),
  "C12": ("ADT field tables (XOR masking symmetry, secret-type closure of outward types) + cut-set reachability + producer provenance + backward flag-root analysis", "4 C12",
          "Each SecretKey field of the stored Context is masked in save and get (2 known findings: initial_sec_*); outward types contain no secret types; the seed file is written only as the sealed EncryptedWalletSeed; decrypt Ok needs AEAD open Ok; password change/recovery order constraints; Context literals only in with_excess with thread_rng/create_secnonce on the production edge, writers of context secrets tabled; every root of use_test_rng is literal false (or true under a flag whose roots are false). RNG quality, nonce collision and byte-level leakage are not decided."),
+ "C01": ("panic-site reachability with guard discharge + effect summaries/cut sets + path-enumerated truth table of eligible_to_spend + fee/change provenance", "4 C01",
+         "Every panic-capable site in selection / slate construction reachable from the send entry points is discharged by a recognised dominating guard, allow-listed with a read reason (counted) or reported (6 defects repaired); initiation cannot reach lock_output and saves its context only after selection succeeded; candidates are the source account's outputs passing eligible_to_spend, whose truth table (per status x coinbase x lock height) is enumerated; fee is a tx_fee(coins.len(), ..) result. The conservation equation itself is numeric and not decided."),
+ "C09": ("panic-site reachability over the resolved call graph with decoding callback edges, guard discharge, counted allow-list; effect-freedom of decoders", "4 C09",
+         "From 630 decoder entry points (slatepack/armor/slate JSON and binary, addresses, payment proofs, both JSON-RPC listeners incl. the generated parameter decoding, the remote wallet's HTTP reply) every reachable panic-capable site is auto-discharged, allow-listed with a reason and a frozen count, or reported (9 defect groups repaired in /repo); allocation sizes derive from bounded-width reads; no wallet effect is reachable from a decoder. Panics inside dependencies are out of reach (no MIR)."),
 }
 
 checks = []
